@@ -64,9 +64,37 @@ def run(res, tier):
                     stats["unpowered"] += 1
                     res.violation({"reason": "an entity that consumes electricity lies outside every pole's supply area although a pole of the grid as laid out covered it: that pole was removed",
                                    "entities": [name_of(k) for k in trimmed[:5]], "source": r["source"], "options": o})
-                if [k for k in off if k not in hole]:
+                # the grid starts below / left of every user-placed entity by construction (start offset =
+                # min(0, user minimum) - margin - half a spacing); what the listed finding F31 covers is the far end (the last
+                # row / column may stop up to one spacing short of the area) and compiler-placed stragglers beyond the estimate
+                grid = r.get("pretrim_poles") or []
+                sup = (r.get("grid_supply") or 0) / 1000.0
+                low_x = min(p[0] for p in grid) - sup
+                low_y = min(p[1] for p in grid) - sup
+                high_x = max(p[0] for p in grid) + sup
+                high_y = max(p[1] for p in grid) + sup
+                # at the far end the area ends `margin` (5 tiles) beyond the last user-placed tile and the last grid point
+                # lies less than one spacing (2 x supply) before it: a user-placed entity can stick out of the last supply
+                # square by less than supply - margin (substations only), plus its own size
+                slack = max(0.0, sup - 5.0)
+                geom = r.get("geometry") or []
+                before_start = []
+                for k in sorted(off - hole):
+                    if name_of(k) in user and 0 < k <= len(geom) and geom[k - 1].get("box"):
+                        b = geom[k - 1]["box"]
+                        pos = ents[k - 1]["position"]
+                        size = max(b[2] - b[0], b[3] - b[1]) / 1000.0
+                        if pos["x"] + b[2] / 1000.0 <= low_x or pos["y"] + b[3] / 1000.0 <= low_y:
+                            before_start.append(k)
+                        elif pos["x"] + b[0] / 1000.0 > high_x + slack + size or pos["y"] + b[1] / 1000.0 > high_y + slack + size:
+                            before_start.append(k)
+                if before_start:
+                    stats["unpowered"] += 1
+                    res.violation({"reason": "a user-placed entity that consumes electricity lies before the start of the pole grid, or further beyond its end than the known far-end shortfall (the grid must begin below and left of every user-placed entity and end at most supply - margin short of the last one)",
+                                   "entities": [name_of(k) for k in before_start[:5]], "grid_low": [low_x, low_y], "source": r["source"], "options": o})
+                if [k for k in off if k not in hole and k not in before_start]:
                     res.known("F31", "entities outside the area the pole grid was laid over (user-placed entities far from the compiler-placed cluster / at negative coordinates; layout-dependent stragglers) are not powered",
-                              example={"source": r["source"], "options": o, "unpowered": [name_of(k) for k in sorted(off - hole)[:5]]})
+                              example={"source": r["source"], "options": o, "unpowered": [name_of(k) for k in sorted(off - hole - set(before_start))[:5]]})
                     stats["finding:F31"] += 1
                 if hole:
                     if all(name_of(k) in user for k in hole):
